@@ -6,13 +6,23 @@ What is modelled (read from the fork sources, see `spec/C09.json`):
 * `x/evm/statedb/statedb.go`: `Snapshot` = current journal length; `RevertToSnapshot` = undo the journal entries above that
   length, newest first; `SetState` pushes `storageChange{prev}`; `AddLog` pushes `addLogChange`;
   `ExecuteNativeAction` = clone the native cache store, run the action, on error restore the clone, on success push
-  `nativeChange{snapshot}`; `Transfer` (value of a CALL) is itself a native action; `Commit` = native store first, then
-  the dirty EVM storage.
-* `core/vm/evm.go` `Call/CallCode/DelegateCall/StaticCall`: snapshot, (transfer), run callee, on any error revert to the
-  snapshot, and unless the error is `ErrExecutionReverted` consume all forwarded gas.  A precompile gets
+  `nativeChange{snapshot}` (AFTER the action — so entries pushed by EVM calls the action makes sit below it); a panic
+  inside the action unwinds through `ExecuteNativeAction`: neither restore nor journal entry; `Transfer` (value of a CALL)
+  is itself a native action; `Context()` hands out the ctx over the SAME native store without any journaling; `Commit` =
+  native store first, then the dirty EVM storage.
+* `core/vm/evm.go` `Call/CallCode/DelegateCall/StaticCall`: (`CanTransfer` fails ⇒ return at once with the error and ALL
+  the gas handed over — stipend included — and nothing touched), snapshot, (transfer), run callee, on any error revert to
+  the snapshot, and unless the error is `ErrExecutionReverted` consume all forwarded gas.  A precompile gets
   `readonly = (kind ≠ CALL)` — the flag of the *direct* call only.  A precompile returning an error (the fx-core
   dispatchers return the plain Go error next to the packed revert data) is an exceptional failure: all forwarded gas is lost.
 * `core/vm/contracts.go` `runPrecompiledContract`: `RequiredGas` is charged first, running out = `ErrOutOfGas`.
+* the precompile methods' `Run` (x/staking/precompile, x/crosschain/precompile): statements before / after the one
+  `ExecuteNativeAction` closure (`RunShape.outerBefore/outerAfter`: keeper calls on `stateDB.Context()`), a deferred
+  `recover()` (`RunShape.recovers`), and inside the closure the keeper part (`ActionX`: arbitrary, may fail after
+  half-writing, may panic) and the EVM calls made on the same StateDB (`contract.ERC20Call.call` = `evm.Call` from the
+  precompile's address with its own gas allowance, inheriting the interpreter's read-only flag), in the order
+  `RunShape.evmAfterWrite` says.  The shape of every real method is regenerated from the AST (`Gen/C09.lean runFacts`).
+* a Go panic that nothing recovers unwinds the interpreter; baseapp discards the whole transaction (`Outcome.abort`).
 
 `fuel` is only the structural recursion bound; `gas` is threaded EVM gas.  Every gas cost is an arbitrary `Nat` carried
 by the program node (the theorems hold for all of them; the correspondence harness fills in the costs it measured with
@@ -23,7 +33,11 @@ namespace FxVerif.Model.C09
 inductive Kind | call | staticcall | delegatecall | callcode
   deriving DecidableEq, Repr
 
-inductive Outcome | ok | revert | fail
+inductive Outcome | ok | revert | fail | abort
+  deriving DecidableEq, Repr
+
+/-- what a piece of native (Go) code yields: returns nil / returns an error / panics -/
+inductive Res | ok | err | panic
   deriving DecidableEq, Repr
 
 /-- what a transaction can commit: EVM storage (global slot ids), the native multistore, the tx logs (newest first) -/
@@ -73,18 +87,33 @@ def St.addLogs (s : St N) : List Nat → St N
   | [] => s
   | l :: ls => (s.addLog l).addLogs ls
 
-/-- a native action: gets the `readonly` flag the interpreter passed and the native store; returns success?, the store
-as the action left it (possibly half-written when it fails) and the EVM logs it emitted through `AddLog` on the way -/
+/-- a keeper write through `stateDB.Context()`: the same native store, no snapshot, no journal entry -/
+def St.poke (s : St N) (f : N → N) : St N := { s with native := f s.native }
+
+/-- a native action (two-valued, the abstraction of a method whose `Run` has the clean shape): gets the `readonly` flag the
+interpreter passed and the native store; returns success?, the store as the action left it (possibly half-written when it
+fails) and the EVM logs it emitted through `AddLog` on the way -/
 abbrev Action (N : Type) := Bool → N → Bool × N × List Nat
 
-/-- `ExecuteNativeAction`: snapshot, run, on error restore, on success journal the snapshot -/
-def St.nativeAction (s : St N) (ro : Bool) (act : Action N) : Bool × St N :=
-  let snap := s.native
-  let r := act ro s.native
-  let s1 := s.addLogs r.2.2
-  let dirty : St N := { s1 with native := r.2.1 }
-  if r.1 then (true, { dirty with journal := .native snap :: dirty.journal })
-  else (false, { dirty with native := snap })
+/-- the keeper part of a native-action closure: `readonly` flag, gas left after `RequiredGas`, native store ↦ result,
+store as left behind (possibly half-written on error or panic), EVM logs emitted on the way -/
+abbrev ActionX (N : Type) := Bool → Nat → N → Res × N × List Nat
+
+def Action.lift (a : Action N) : ActionX N := fun ro _ n => (if (a ro n).1 then .ok else .err, (a ro n).2.1, (a ro n).2.2)
+
+/-- shape of a precompile method's `Run` (regenerated per method, `Gen/C09.lean runFacts` → `shapeOf`) -/
+structure RunShape where
+  outerBefore : Bool    -- keeper calls on `stateDB.Context()` before `ExecuteNativeAction`
+  outerAfter : Bool     -- … after it
+  recovers : Bool       -- a deferred `recover()` in `Run` turns a panic inside the native action into an error return
+  evmAfterWrite : Bool  -- on some path through the closure an EVM call on the same StateDB follows a keeper write
+  deriving DecidableEq, Repr
+
+/-- the shapes for which a precompile call is all-or-nothing (`Props/C09.lean`: sufficient, and each condition necessary).
+A keeper write AFTER the native action is not in the list: it sits above the action's journal entry, whose snapshot
+restores the store as it was before the action — the order of the two statements is what matters. -/
+def RunShape.clean (sh : RunShape) : Bool := !sh.outerBefore && !sh.recovers && !sh.evmAfterWrite
+def RunShape.tidy : RunShape := { outerBefore := false, outerAfter := false, recovers := false, evmAfterWrite := false }
 
 /-- `StateDB.Transfer`: a native action that cannot fail once `CanTransfer` passed -/
 def St.transfer (s : St N) (f : N → N) : St N :=
@@ -97,6 +126,7 @@ structure CallHdr (N : Type) where
   stip : Nat             -- call stipend added for the callee (value > 0)
   kind : Kind
   xfer : Option (N → N)  -- value transfer (native bank move), performed after the snapshot
+  funded : N → Bool      -- `CanTransfer`: the caller's balance covers the value (only looked at when `xfer` is there)
   swallow : Bool         -- on failure: continue (true) or bubble up with REVERT (false)
   pOk : Nat              -- caller-side cost after a successful call
   pFail : Nat            -- caller-side cost after a failed call (up to and including the REVERT when bubbling)
@@ -104,10 +134,16 @@ structure CallHdr (N : Type) where
 inductive Prog (N : Type)
   | sstore (c k v : Nat)
   | call (h : CallHdr N) (body : List (Prog N))
-  | pre (h : CallHdr N) (req : Nat) (act : Action N)
+  /-- a call to a precompile: `RequiredGas`, the shape of the method's `Run`, the write `Run` makes outside the native
+  action (only performed when the shape says so), the EVM calls the closure makes on the same StateDB (own gas allowance,
+  callee program), the keeper part of the closure -/
+  | pre (h : CallHdr N) (req : Nat) (sh : RunShape) (out : N → N) (inner : List (Nat × List (Prog N))) (act : ActionX N)
   | revert (c : Nat)
   | stop (c : Nat)
   | invalid
+
+/-- a precompile call of the clean shape without EVM calls inside (the node of the first version of this model) -/
+def Prog.preA (h : CallHdr N) (req : Nat) (act : Action N) : Prog N := .pre h req .tidy id [] act.lift
 
 /-- EIP-150: at most all-but-one-64th of what is left after the call's own cost -/
 def fwdGas (h : CallHdr N) (gas : Nat) : Nat := min h.cap ((gas - h.callc) - (gas - h.callc) / 64)
@@ -118,14 +154,57 @@ def St.enter (s : St N) (h : CallHdr N) : St N :=
   | some f => s.transfer f
   | none => s
 
-/-- precompile body: `RequiredGas`, then the dispatcher + method (abstract `act`) inside `ExecuteNativeAction` -/
-def runPre (ro : Bool) (gas req : Nat) (act : Action N) (s : St N) : Outcome × St N × Nat :=
+/-- `evm.Call` refuses to start: value attached that the caller cannot pay -/
+def CallHdr.unfunded (h : CallHdr N) (s : N) : Bool := h.xfer.isSome && !h.funded s
+
+/-- the evaluator of a callee program (`exec fuel`), abstracted so that `runPre` is not part of the recursion -/
+abbrev Eval (N : Type) := Bool → Nat → List (Prog N) → St N → Outcome × St N × Nat
+
+/-- the EVM calls a closure makes (`ERC20Call.call` = `evm.Call(precompile, token, data, maxGas, 0)`): each has its own
+snapshot and gas allowance; the first that does not return normally is reverted and makes the closure return its error;
+a panic inside unwinds -/
+def runInner (ev : Eval N) (ro : Bool) : List (Nat × List (Prog N)) → St N → Res × St N
+  | [], s => (.ok, s)
+  | (g, body) :: rest, s =>
+    let r := ev ro g body s
+    if r.1 = .ok then runInner ev ro rest r.2.1
+    else if r.1 = .abort then (.panic, r.2.1)
+    else (.err, r.2.1.revertTo s.journal.length)
+
+/-- the keeper part: writes go to the native store directly (that is what a snapshot is for), logs through `AddLog` -/
+def St.keeper (s : St N) (ro : Bool) (g : Nat) (act : ActionX N) : Res × St N :=
+  let r := act ro g s.native
+  (r.1, { (s.addLogs r.2.2) with native := r.2.1 })
+
+/-- the closure handed to `ExecuteNativeAction`, in the order the method's source has -/
+def runClosure (ev : Eval N) (roCtx roCall : Bool) (g : Nat) (sh : RunShape) (inner : List (Nat × List (Prog N)))
+    (act : ActionX N) (s : St N) : Res × St N :=
+  if sh.evmAfterWrite then
+    match s.keeper roCall g act with
+    | (.ok, s1) => runInner ev roCtx inner s1
+    | r => r
+  else
+    match runInner ev roCtx inner s with
+    | (.ok, s1) => s1.keeper roCall g act
+    | r => r
+
+/-- precompile body: `RequiredGas`, then the dispatcher + the method's `Run`: statements before the native action, the
+action inside `ExecuteNativeAction` (snapshot; on error restore; on success journal the snapshot; a panic passes
+through), statements after it, the deferred `recover()` -/
+def runPre (ev : Eval N) (roCtx roCall : Bool) (gas req : Nat) (sh : RunShape) (out : N → N)
+    (inner : List (Nat × List (Prog N))) (act : ActionX N) (s : St N) : Outcome × St N × Nat :=
   if gas < req then (.fail, s, 0) else
-  if (s.nativeAction ro act).1 then (.ok, (s.nativeAction ro act).2, gas - req)
-  else (.fail, (s.nativeAction ro act).2, 0)
+  let s0 := if sh.outerBefore then s.poke out else s
+  match runClosure ev roCtx roCall (gas - req) sh inner act s0 with
+  | (.ok, s1) =>
+    let s2 : St N := { s1 with journal := .native s0.native :: s1.journal }
+    (.ok, if sh.outerAfter then s2.poke out else s2, gas - req)
+  | (.err, s1) => (.fail, { s1 with native := s0.native }, 0)
+  | (.panic, s1) => if sh.recovers then (.fail, s1, 0) else (.abort, s1, 0)
 
 /-- what `evm.Call*` and the caller's code do with the callee's result: `inl` = caller continues, `inr` = caller halts -/
 def resolve (h : CallHdr N) (snap keep : Nat) (r : Outcome × St N × Nat) : Sum (St N × Nat) (Outcome × St N × Nat) :=
+  if r.1 = .abort then .inr (.abort, r.2.1, 0) else
   if r.1 = .ok then
     if keep + r.2.2 < h.pOk then .inr (.fail, r.2.1, 0) else .inl (r.2.1, keep + r.2.2 - h.pOk)
   else
@@ -148,28 +227,46 @@ def exec (fuel : Nat) (ro : Bool) (gas : Nat) (p : List (Prog N)) (s : St N) : O
     | .call h body :: rest =>
       if gas < h.callc ∨ (ro = true ∧ h.xfer.isSome = true) then (.fail, s, 0) else
       match resolve h s.journal.length (keepGas h gas)
-          (exec fuel (ro || h.kind == .staticcall) (fwdGas h gas + h.stip) body (s.enter h)) with
+          (if h.unfunded s.native then (.revert, s, fwdGas h gas + h.stip)
+           else exec fuel (ro || h.kind == .staticcall) (fwdGas h gas + h.stip) body (s.enter h)) with
       | .inl x => exec fuel ro x.2 rest x.1
       | .inr r => r
-    | .pre h req act :: rest =>
+    | .pre h req sh out inner act :: rest =>
       if gas < h.callc ∨ (ro = true ∧ h.xfer.isSome = true) then (.fail, s, 0) else
       match resolve h s.journal.length (keepGas h gas)
-          (runPre (h.kind != .call) (fwdGas h gas + h.stip) req act (s.enter h)) with
+          (if h.unfunded s.native then (.revert, s, fwdGas h gas + h.stip)
+           else runPre (exec fuel) ro (h.kind != .call) (fwdGas h gas + h.stip) req sh out inner act (s.enter h)) with
       | .inl x => exec fuel ro x.2 rest x.1
       | .inr r => r
 
 /-- `StateDB.Commit`: the native cache store is written first, then the dirty EVM storage (disjoint components) -/
 def commit (s : St N) : View N := s.toView
 
-/-- one transaction: fresh StateDB over `v`, root frame (a `Call`, so it has its own snapshot at journal length 0), commit -/
+/-- one transaction: fresh StateDB over `v`, root frame (a `Call`, so it has its own snapshot at journal length 0), commit;
+an unrecovered panic makes baseapp drop the transaction's whole cache -/
 def runTx (fuel gas : Nat) (p : List (Prog N)) (v : View N) : Outcome × View N × Nat :=
   let r := exec fuel false gas p { toView := v, journal := [] }
   if r.1 = .ok then (.ok, commit r.2.1, r.2.2)
+  else if r.1 = .abort then (.abort, v, 0)
+  else (r.1, commit (r.2.1.revertTo 0), if r.1 = .revert then r.2.2 else 0)
+
+/-- a transaction whose `to` is the precompile itself (a direct call by an externally owned account): the root frame IS
+the precompile call — `evm.Call` snapshots, moves the transaction's value, runs the precompile with `readonly = false`,
+reverts to the snapshot on any error -/
+def runTxPre (fuel gas : Nat) (xfer : Option (N → N)) (req : Nat) (sh : RunShape) (out : N → N)
+    (inner : List (Nat × List (Prog N))) (act : ActionX N) (v : View N) : Outcome × View N × Nat :=
+  let s0 : St N := { toView := v, journal := [] }
+  let s1 := match xfer with | some f => s0.transfer f | none => s0
+  let r := runPre (exec fuel) false false gas req sh out inner act s1
+  if r.1 = .ok then (.ok, commit r.2.1, r.2.2)
+  else if r.1 = .abort then (.abort, v, 0)
   else (r.1, commit (r.2.1.revertTo 0), if r.1 = .revert then r.2.2 else 0)
 
 /-! ## Spec: the same language with whole-state snapshots instead of a journal
 "The surviving effects are those of calls all of whose enclosing frames returned normally": a frame that does not return
-normally hands back the state it was entered in. -/
+normally hands back the state it was entered in.  The spec gives a meaning to precompile calls of the clean shape only
+(the others are exactly the ones for which no such meaning exists, see `Props/C09.lean`); a keeper write that `Run`
+makes after a successful native action is simply part of the call's effect. -/
 
 def View.sstore (v : View N) (k x : Nat) : View N := { v with slots := setSlot v.slots k x }
 def View.addLogs (v : View N) (ls : List Nat) : View N := { v with logs := ls.reverse ++ v.logs }
@@ -178,13 +275,33 @@ def View.enter (v : View N) (h : CallHdr N) : View N :=
   | some f => { v with native := f v.native }
   | none => v
 
-def specPre (ro : Bool) (gas req : Nat) (act : Action N) (v : View N) : Outcome × View N × Nat :=
+abbrev SEval (N : Type) := Bool → Nat → List (Prog N) → View N → Outcome × View N × Nat
+
+def specInner (ev : SEval N) (ro : Bool) : List (Nat × List (Prog N)) → View N → Res × View N
+  | [], v => (.ok, v)
+  | (g, body) :: rest, v =>
+    let r := ev ro g body v
+    if r.1 = .ok then specInner ev ro rest r.2.1
+    else if r.1 = .abort then (.panic, v)
+    else (.err, v)
+
+def specPre (ev : SEval N) (roCtx roCall : Bool) (gas req : Nat) (sh : RunShape) (out : N → N)
+    (inner : List (Nat × List (Prog N))) (act : ActionX N) (v : View N) : Outcome × View N × Nat :=
   if gas < req then (.fail, v, 0) else
-  if (act ro v.native).1 then (.ok, { (v.addLogs (act ro v.native).2.2) with native := (act ro v.native).2.1 }, gas - req)
-  else (.fail, v, 0)
+  match specInner ev roCtx inner v with
+  | (.ok, v1) =>
+    match (act roCall (gas - req) v1.native).1 with
+    | .ok => (.ok, { (v1.addLogs (act roCall (gas - req) v1.native).2.2) with
+                     native := if sh.outerAfter then out (act roCall (gas - req) v1.native).2.1
+                               else (act roCall (gas - req) v1.native).2.1 }, gas - req)
+    | .err => (.fail, v, 0)
+    | .panic => (.abort, v, 0)
+  | (.err, _) => (.fail, v, 0)
+  | (.panic, _) => (.abort, v, 0)
 
 def specResolve (h : CallHdr N) (saved : View N) (keep : Nat) (r : Outcome × View N × Nat) :
     Sum (View N × Nat) (Outcome × View N × Nat) :=
+  if r.1 = .abort then .inr (.abort, saved, 0) else
   if r.1 = .ok then
     if keep + r.2.2 < h.pOk then .inr (.fail, r.2.1, 0) else .inl (r.2.1, keep + r.2.2 - h.pOk)
   else
@@ -206,13 +323,15 @@ def spec (fuel : Nat) (ro : Bool) (gas : Nat) (p : List (Prog N)) (v : View N) :
     | .call h body :: rest =>
       if gas < h.callc ∨ (ro = true ∧ h.xfer.isSome = true) then (.fail, v, 0) else
       match specResolve h v (keepGas h gas)
-          (spec fuel (ro || h.kind == .staticcall) (fwdGas h gas + h.stip) body (v.enter h)) with
+          (if h.unfunded v.native then (.revert, v, fwdGas h gas + h.stip)
+           else spec fuel (ro || h.kind == .staticcall) (fwdGas h gas + h.stip) body (v.enter h)) with
       | .inl x => spec fuel ro x.2 rest x.1
       | .inr r => r
-    | .pre h req act :: rest =>
+    | .pre h req sh out inner act :: rest =>
       if gas < h.callc ∨ (ro = true ∧ h.xfer.isSome = true) then (.fail, v, 0) else
       match specResolve h v (keepGas h gas)
-          (specPre (h.kind != .call) (fwdGas h gas + h.stip) req act (v.enter h)) with
+          (if h.unfunded v.native then (.revert, v, fwdGas h gas + h.stip)
+           else specPre (spec fuel) ro (h.kind != .call) (fwdGas h gas + h.stip) req sh out inner act (v.enter h)) with
       | .inl x => spec fuel ro x.2 rest x.1
       | .inr r => r
 
@@ -220,5 +339,33 @@ def spec (fuel : Nat) (ro : Bool) (gas : Nat) (p : List (Prog N)) (v : View N) :
 def specTx (fuel gas : Nat) (p : List (Prog N)) (v : View N) : Outcome × View N × Nat :=
   let r := spec fuel false gas p v
   if r.1 = .ok then (.ok, r.2.1, r.2.2) else (r.1, v, if r.1 = .revert then r.2.2 else 0)
+
+def specTxPre (fuel gas : Nat) (xfer : Option (N → N)) (req : Nat) (sh : RunShape) (out : N → N)
+    (inner : List (Nat × List (Prog N))) (act : ActionX N) (v : View N) : Outcome × View N × Nat :=
+  let v1 := match xfer with | some f => { v with native := f v.native } | none => v
+  let r := specPre (spec fuel) false false gas req sh out inner act v1
+  if r.1 = .ok then (.ok, r.2.1, r.2.2) else (r.1, v, if r.1 = .revert then r.2.2 else 0)
+
+/-- every precompile call in the program (at any depth, also inside the EVM calls precompiles make) has the clean shape -/
+inductive Clean : List (Prog N) → Prop
+  | nil : Clean []
+  | sstore {c k v rest} : Clean rest → Clean (.sstore c k v :: rest)
+  | revert {c rest} : Clean (.revert c :: rest)
+  | stop {c rest} : Clean (.stop c :: rest)
+  | invalid {rest} : Clean (.invalid :: rest)
+  | call {h body rest} : Clean body → Clean rest → Clean (.call h body :: rest)
+  | pre {h req sh out inner act rest} : sh.clean = true → (∀ x ∈ inner, Clean x.2) → Clean rest →
+      Clean (.pre h req sh out inner act :: rest)
+
+/-- no keeper part anywhere in the program ever panics (in particular: every program built from two-valued `Action`s) -/
+inductive NoPanic : List (Prog N) → Prop
+  | nil : NoPanic []
+  | sstore {c k v rest} : NoPanic rest → NoPanic (.sstore c k v :: rest)
+  | revert {c rest} : NoPanic (.revert c :: rest)
+  | stop {c rest} : NoPanic (.stop c :: rest)
+  | invalid {rest} : NoPanic (.invalid :: rest)
+  | call {h body rest} : NoPanic body → NoPanic rest → NoPanic (.call h body :: rest)
+  | pre {h req sh out inner act rest} : (∀ ro g n, (act ro g n).1 ≠ .panic) → (∀ x ∈ inner, NoPanic x.2) → NoPanic rest →
+      NoPanic (.pre h req sh out inner act :: rest)
 
 end FxVerif.Model.C09
